@@ -443,7 +443,7 @@ pub fn main(args: &Args) -> i32 {
     };
     let fds = FdTable::new(0);
     let n_seq = std::sync::atomic::AtomicU64::new(0);
-    vcommon::par_for(side * side * side, 16, |i| {
+    vcommon::par_for(side * side * side, 2, |i| {
         let (a, s, v) = (i / (side * side), (i / side) % side, i % side);
         let mut seen: BTreeSet<Vec<K>> = BTreeSet::new();
         let mut classes: std::collections::BTreeMap<String, u64> = Default::default();
